@@ -11,6 +11,8 @@ use laythe_lib::global::ERROR_CLASS_NAME;
 pub use parser::Parser;
 use ref_no_context::RefNoContext;
 pub use resolver::Resolver;
+#[cfg(laythe_verif)]
+pub use peephole::verif as verif_peephole;
 
 use crate::{
   byte_code::{CaptureIndex, Label, SymbolicByteCode},
